@@ -1,18 +1,28 @@
 """C12 — ConcurrentImmix preserves the snapshot-at-the-beginning: programs whose mutator keeps moving / deleting
 references while concurrent marking runs; after the FinalMark pause every object of the InitialMark snapshot
 and every object allocated during marking must still be a valid, intact object."""
-import random, re
+import argparse, json, os, random, re, time
 from checks import gcweak_common as W
-from vlib import gcrun as G
+from vlib import gcrun as G, engine as E, unit
+from vlib.engine import Case, Violation
 
 THEOREMS = ["Mmtk.SATB.satb_complete", "Mmtk.SATB.alloc_during_marking_survives", "Mmtk.SATB.satb_invariant", "Mmtk.SATB.marked_mono",
-            "Mmtk.SATB.step_inv", "Mmtk.SATB.init_inv", "Mmtk.SATB.exec_inv"]
+            "Mmtk.SATB.step_inv", "Mmtk.SATB.init_inv", "Mmtk.SATB.exec_inv",
+            # racing barriers of several mutators on ONE object (Model/SATBRace.lean, Props/C12Race.lean)
+            "Mmtk.SATBRace.racing_barriers_record_snapshot", "Mmtk.SATBRace.logged_implies_recorded",
+            "Mmtk.SATBRace.quiescent_logged", "Mmtk.SATBRace.recorded_was_field_value", "Mmtk.SATBRace.field_value_origin",
+            "Mmtk.SATBRace.outcome_sound", "Mmtk.SATBRace.clear_first_loses_snapshot", "Mmtk.SATBRace.same_schedule_original_order",
+            "Mmtk.SATBRace.step_inv", "Mmtk.SATBRace.init_inv", "Mmtk.SATBRace.exec_inv"]
+MODULES = ["MmtkModel.Props.C12", "MmtkModel.Props.C12Race"]
 C01_KEYS = ("gc:dup-id", "gc:extra-object", "gc:lost-object", "gc:size-mismatch", "gc:payload", "gc:field-mismatch", "gc:root-mismatch")
 KEYS = C01_KEYS + ("gc:satb-lost", "gc:satb-protocol")
+RACE_KEYS = ("race:satb:snapshot-lost", "race:satb:not-logged", "race:satb:spurious-record", "race:satb:field", "race:satb:buffer-shape",
+             "race:satb:panic", "race:satb:crash", "race:satb:lean-verdict", "satb:seq:snapshot-lost", "satb:seq:not-logged",
+             "satb:seq:spurious-record", "satb:seq:buffer-count")
 META = {
-    "text": "SATB model (Model/SATB.lean): an interleaving transition system of any number of mutator and marker threads in which the barrier's unlog-bit test, each field read of the slow path, the log-bit clear, the store, the marker's pop+mark and each field read of its scan are separate atomic steps; invariant `Inv` (every snapshot edge is either still in place and its holder unscanned/unlogged, or its target is marked or grey) is preserved by every step of every thread (`step_inv`, `exec_inv`), so at the end of marking (grey empty, threads idle) every object reachable in the InitialMark snapshot is marked (`satb_complete`), objects allocated during marking are marked (`alloc_during_marking_survives`), marks are never removed (`marked_mono`). Real collections: ConcurrentImmix x {1,4} workers with yield points armed; the program builds a 10^4-object graph, allocates until the InitialMark pause (recognised in the event log: GcFinishedEnd with concurrent work scheduled), then keeps moving the only reference to an object into another (possibly already scanned) object and clearing the original, deleting references, moving them to roots, dropping roots and allocating, with `sleep`/`poll` in between, until the FinalMark pause; then `is_mmtk_object` + header words of every snapshot-reachable object and every object allocated during marking (also those dropped meanwhile) are checked, and the snapshots after InitialMark, FinalMark and a following full GC are compared with the shadow heap.",
-    "note": "Level: proof of the model for all interleavings, partial w.r.t. the code (the real interleaving of barrier and marker is sampled). hx_gc's `write` on this plan is pre-barrier + plain store (known defect F-D: the subsuming barrier's post half is unimplemented!()); `copyrange` and NonMoving are kept out (F-D family, gc:concimmix-nonmoving-not-reset).",
-    "technique": "Lean 4 proof (interleaving invariant, unbounded threads) + run-time verification of real concurrent marking cycles by the snapshot monitor + independent oracle",
+    "text": "SATB model (Model/SATB.lean): an interleaving transition system of any number of mutator and marker threads in which the barrier's unlog-bit test, each field read of the slow path, the log-bit clear, the store, the marker's pop+mark and each field read of its scan are separate atomic steps; invariant `Inv` (every snapshot edge is either still in place and its holder unscanned/unlogged, or its target is marked or grey) is preserved by every step of every thread (`step_inv`, `exec_inv`), so at the end of marking (grey empty, threads idle) every object reachable in the InitialMark snapshot is marked (`satb_complete`), objects allocated during marking are marked (`alloc_during_marking_survives`), marks are never removed (`marked_mono`). Real collections: ConcurrentImmix x {1,4} workers with yield points armed; the program builds a 10^4-object graph, allocates until the InitialMark pause (recognised in the event log: GcFinishedEnd with concurrent work scheduled), then keeps moving the only reference to an object into another (possibly already scanned) object and clearing the original, deleting references, moving them to roots, dropping roots and allocating, with `sleep`/`poll` in between, until the FinalMark pause; then `is_mmtk_object` + header words of every snapshot-reachable object and every object allocated during marking (also those dropped meanwhile) are checked, and the snapshots after InitialMark, FinalMark and a following full GC are compared with the shadow heap. Racing barriers (Model/SATBRace.lean, Props/C12Race.lean): any number of mutators store into ONE unlogged object, each store being unlog-bit load -> [field reads one by one into the mutator-local buffer -> unconditional unlog-bit store] -> store, freely interleaved; for every interleaving a snapshot value that was overwritten is in some SATB buffer (`racing_barriers_record_snapshot`), a logged object has all its snapshot referents recorded (`logged_implies_recorded`), at quiescence the object is logged (`quiescent_logged`), nothing spurious is recorded (`recorded_was_field_value`, `field_value_origin`); with the two halves of the slow path swapped a 9-step schedule loses the referent (`clear_first_loses_snapshot`, by `decide`). Tie to the code: hx_unit `satb` drives a real ConcurrentImmix MMTK<VerifVM> in the marking-active state — exact sequential differential of write/probable-write/buffer contents against the model, and real-thread races (2..8 OS threads, each with its own bound mutator, 1..16 fields, spin rendezvous + random stagger + seeded yield points, thousands of rounds per case) whose every distinct outcome (unlog bit, fields, every mutator's SATB buffer) is judged by the executable Lean verdict `Mmtk.SATBRace.verdict` (sound: `outcome_sound`) and by an independent Python oracle.",
+    "note": "Level: proof of the model for all interleavings, partial w.r.t. the code (the real interleavings of barrier and marker, and of racing barriers, are sampled). The races need the add-only hooks verif::conc::satb (take/len of the mutator-local SATB buffer, set_concurrent_marking_state). hx_gc's `write` on this plan is pre-barrier + plain store (known defect F-D: the subsuming barrier's post half is unimplemented!()); `copyrange` and NonMoving are kept out (F-D family, gc:concimmix-nonmoving-not-reset).",
+    "technique": "Lean 4 proof (interleaving invariants, unbounded threads) + run-time verification of real concurrent marking cycles by the snapshot monitor + exact sequential differential and real-thread races of the SATB barrier judged by a proved-sound Lean verdict + independent oracle",
     "category": "proof",
 }
 
@@ -106,12 +116,15 @@ def d_c12(ctx, args):
         """one mutator step on the interesting region; returns the number of barriered writes"""
         # reachable part of the region: from every root but the list head, plus the super hub (the list tail holds it;
         # list nodes are never written by the mutator steps) — avoids walking the whole list at every step
-        reach, stack = set(), [v for k, v in sh.roots.items() if k != ("vm", 1)] + [lo]
-        while stack:
-            y = stack.pop()
-            if y not in reach:
-                reach.add(y)
-                stack += [f for f in sh.objs[y]["fields"] if f is not None]
+        def reach_set():
+            reach, stack = set(), [v for k, v in sh.roots.items() if k != ("vm", 1)] + [lo]
+            while stack:
+                y = stack.pop()
+                if y not in reach:
+                    reach.add(y)
+                    stack += [f for f in sh.objs[y]["fields"] if f is not None]
+            return reach
+        reach = reach_set()
         pool = [i for i in interesting if i in reach and sh.objs[i]["nf"]]
         if not pool:
             return 0
@@ -138,12 +151,17 @@ def d_c12(ctx, args):
             return 0
         slot = rnd.randrange(30, 40)                # allocate during marking; link it in, or drop it at once
         n = alloc(rnd.choice([0, 1, 2]), rnd.choice([0, 16, 64, 200]), slot)
+        # the allocation re-used root slot `slot`: if that slot held the only path to x, x (and what only x reaches) is
+        # garbage now — hx_gc forgets garbage ids at the next pause (`err unknown-id`), so it must not be written any more
+        live = reach_set()
         w = 0
         if sh.objs[n]["nf"] and fs:
-            write(n, 0, sh.objs[x]["fields"][rnd.choice(fs)])
-            w += 1
+            y = sh.objs[x]["fields"][rnd.choice(fs)]
+            if y in live:
+                write(n, 0, y)
+                w += 1
         interesting.append(n)
-        if rnd.random() < 0.5:
+        if rnd.random() < 0.5 and x in live:
             write(x, rnd.randrange(sh.objs[x]["nf"]), n)
             w += 1
         if rnd.random() < 0.5:
@@ -400,11 +418,385 @@ MALFORMED = ["gcw reset", "gcw mode satb", "gcw op satb final", "gcw res ok", "g
              "gcw op satb bogus", "gcw res ok", "gcw res ok", "gcw op", "gcw op snap", "gcw res snap gcs=z", "gcw bogus"]
 
 
+# ================================================================================================================
+# Racing SATB barriers: several mutators, each on its own OS thread with its own bound mutator, store into ONE
+# unlogged object of a real ConcurrentImmix instance while "concurrent marking" is active (hx_unit component `satb`,
+# harness/src/comp/conc/satb.rs). (1) exact sequential differential of the barrier against Model/SATBRace.lean;
+# (2) real-thread races: every distinct outcome is judged by the executable Lean predicate `Mmtk.SATBRace.verdict`
+# (`mmtk_model satb judge`, proved sound: outcome_sound) AND by the Python oracle below.
+# ================================================================================================================
+NVALS, MAXT, MAXK = 96, 8, 16
+
+
+def _csv(xs):
+    return ",".join(str(x) for x in xs) if xs else "-"
+
+
+def _parse_csv(tok):
+    """-> list of ints; a token that is no number (raw:<hex>) stays a string"""
+    if tok == "-":
+        return []
+    return [int(x) if x.isdigit() else x for x in tok.split(",")]
+
+
+class RaceCase:
+    def __init__(self, nt, yseed, rounds, stagger, snap, writes):
+        self.nt, self.yseed, self.rounds, self.stagger, self.snap, self.writes = nt, yseed, rounds, stagger, snap, writes
+
+    def line(self):
+        ws = " ".join(",".join(f"{f}={v}" for f, v in w) if w else "-" for w in self.writes)
+        return f"satb race {self.nt} {self.yseed} {self.rounds} {self.stagger} {len(self.snap)} {_csv(self.snap)} {ws}"
+
+    @staticmethod
+    def parse(line):
+        t = line.split()
+        assert t[:2] == ["satb", "race"], line
+        nt, k = int(t[2]), int(t[6])
+        writes = [[] if w == "-" else [tuple(int(x) for x in p.split("=")) for p in w.split(",")] for w in t[8:8 + nt]]
+        return RaceCase(nt, int(t[3]), int(t[4]), int(t[5]), _parse_csv(t[7]), writes)
+
+    def all_writes(self):
+        return [p for w in self.writes for p in w]
+
+
+def parse_outcomes(line):
+    """`<n>x@<round> u=<b> f=<csv> b0=<csv> … [p=<csv>] ;; …` -> [dict] or None (hang / crash / garbage)"""
+    if not line or not re.match(r"^\d+x@\d+ u=", line):
+        return None
+    out = []
+    for part in line.split(" ;; "):
+        t = part.split()
+        m = re.match(r"^(\d+)x@(\d+)$", t[0])
+        kv = dict(x.split("=", 1) for x in t[1:])
+        if not m or "u" not in kv or "f" not in kv:
+            return None
+        nb = sum(1 for key in kv if re.match(r"^b\d+$", key))
+        out.append({"count": int(m.group(1)), "round": int(m.group(2)), "u": int(kv["u"]), "f": _parse_csv(kv["f"]),
+                    "bufs": [_parse_csv(kv[f"b{i}"]) for i in range(nb)], "panicked": _parse_csv(kv.get("p", "-")), "text": part})
+    return out
+
+
+def race_oracle(rc, o):
+    """The property's own statement on ONE observed outcome (independent of the Lean model): [(key, what)]"""
+    bad = []
+    snap, allw = rc.snap, rc.all_writes()
+    union = [v for b in o["bufs"] for v in b]
+    if o["panicked"]:
+        bad.append(("race:satb:panic", f"threads {o['panicked']} panicked inside the barrier"))
+    if len(o["f"]) != len(snap) or len(o["bufs"]) != rc.nt:
+        bad.append(("race:satb:crash", f"outcome has the wrong shape: {o['text']}"))
+        return bad
+    if allw and o["u"] != 0:
+        bad.append(("race:satb:not-logged", "stores were made through the barrier but the object's unlog bit is still set"))
+    # the SATB rule: a snapshot referent whose field was overwritten (or whose holder is logged) is in some SATB buffer
+    lost = [(j, x) for j, x in enumerate(snap) if x != 0 and x not in union and (o["u"] == 0 or o["f"][j] != x)]
+    if lost:
+        j, x = lost[0]
+        bad.append(("race:satb:snapshot-lost",
+                    f"snapshot referent {x} of field {j} (now {o['f'][j]}, object {'logged' if o['u'] == 0 else 'unlogged'}) is in NO mutator's SATB buffer "
+                    f"(buffers {[_csv(b) for b in o['bufs']]}): nobody will mark it — it is reclaimed at FinalMark although reachable at InitialMark"))
+    written = {v for _, v in allw}
+    for t, b in enumerate(o["bufs"]):
+        sp = [v for v in b if not isinstance(v, int) or v == 0 or (v not in snap and v not in written)]
+        if sp:
+            bad.append(("race:satb:spurious-record", f"mutator {t} recorded {sp[0]}, which never was a value of a field of the object"))
+        if (not rc.writes[t] and b) or len(b) > len(snap) * len(rc.writes[t]):
+            bad.append(("race:satb:buffer-shape", f"mutator {t} made {len(rc.writes[t])} stores into a {len(snap)}-field object but its buffer holds {len(b)} entries"))
+    for j, x in enumerate(o["f"]):
+        wj = [v for f, v in allw if f == j]
+        if (wj and x not in wj) or (not wj and x != snap[j]):
+            bad.append(("race:satb:field", f"field {j} ends as {x}; snapshot {snap[j]}, values stored into it {wj}"))
+    return bad
+
+
+def judge_line(rc, o):
+    ws = ",".join(f"{f}={v}" for f, v in rc.all_writes()) or "-"
+    return f"satb judge {_csv(rc.snap)} {ws} {o['u']} {_csv(o['f'])} {_csv([v for b in o['bufs'] for v in b])}"
+
+
+def gen_races(rng, tier):
+    thorough = tier == "thorough"
+    rounds = 20000 if thorough else 2500
+    cases = []
+
+    def mk(nt, k, stagger, yseed, shape):
+        snap = list(range(1, k + 1))
+        if shape == "nulls":
+            for j in rng.sample(range(k), max(1, k // 3)):
+                snap[j] = 0
+            if not any(snap):
+                snap[0] = 1
+        elif shape == "dups" and k > 1:
+            snap[rng.randrange(1, k)] = snap[0]
+        writes = []
+        for t in range(nt):
+            n = rng.choice([1, 1, 2, 3])
+            w = []
+            for i in range(n):
+                f = rng.randrange(k) if rng.random() < 0.7 else k - 1          # late fields: the widest window
+                u = rng.random()
+                v = 0 if u < 0.12 else (rng.choice([x for x in snap if x] or [1]) if u < 0.22 else 20 + 8 * t + i)
+                w.append((f, v))
+            writes.append(w)
+        if shape == "idle" and nt > 2:
+            writes[rng.randrange(nt)] = []
+        return RaceCase(nt, yseed, rounds, stagger, snap, writes)
+
+    # the minimal shape of the lost-snapshot schedule first: 2 mutators, one store each
+    for k, stagger, ys in ((1, 100, 0), (1, 400, 1), (2, 200, 0), (4, 300, 1), (8, 1000, 1), (16, 2000, 0)):
+        cases.append(RaceCase(2, rng.randrange(1, 1 << 30) if ys else 0, rounds, stagger, list(range(1, k + 1)), [[(k - 1, 20)], [(k - 1, 28)]]))
+    n = 40 if thorough else 14
+    for i in range(n):
+        nt = rng.choice([2, 2, 3, 4, 4, 8])
+        k = rng.choice([1, 2, 3, 4, 8, 16])
+        stagger = rng.choice([0, 60, 200, 600, 2000, 5000])
+        yseed = 0 if i % 4 == 0 else rng.randrange(1, 1 << 30)
+        cases.append(mk(nt, k, stagger, yseed, rng.choice(["plain", "plain", "nulls", "dups", "idle"])))
+    return cases
+
+
+def run_satb_races(tier, seed, violations, stats):
+    exe, err, bs = E.cargo_build("hx_unit", fs="fs_main")
+    if exe is None:
+        violations.append(Violation("harness-build-failed", "hx_unit no longer builds: " + err[-1500:], found_input=False, broken="harness build (hooks/API changed)"))
+        return
+    rng = random.Random(seed * 6151 + 17)
+    rcs = gen_races(rng, tier)
+    cases = [Case([rc.line()], ["cfg debug 1"], "satb-race") for rc in rcs]
+    t0 = time.time()
+    outs = E.run_cases(exe, cases, timeout=1500, env={"VERIF_PLAN": "ConcurrentImmix"})
+    stats["race_s"] = round(time.time() - t0, 1)
+    parsed = [parse_outcomes(o[0] if o else "") for o in outs]
+    jcases = [Case([judge_line(rc, o) for o in (po or [])] or ["satb state"], ["cfg debug 1"]) for rc, po in zip(rcs, parsed)]
+    verdicts = E.run_cases(E.model_exe(), jcases, timeout=900)
+    seen, nrej, nrounds, nout, overlapped = set(), 0, 0, 0, 0
+    dist = {}
+    bump = lambda key, n=1: dist.__setitem__(key, dist.get(key, 0) + n)
+    for rc, c, raw, po, v in zip(rcs, cases, outs, parsed, verdicts):
+        where = f"threads={rc.nt} yield_seed={rc.yseed} stagger={rc.stagger} fields={len(rc.snap)}: `{rc.line()}`"
+        if po is None:
+            key = "race:satb:crash"
+            if key not in seen:
+                seen.add(key)
+                violations.append(Violation(key, f"the race did not finish / printed garbage: {str(raw)[:300]} [{where}]", c, raw, None, True))
+            continue
+        bump(f"race_threads:{rc.nt}"); bump(f"race_fields:{len(rc.snap)}"); bump("race_yield_armed" if rc.yseed else "race_yield_off")
+        for o, lv in zip(po, v + ["missing"] * (len(po) - len(v))):
+            nrounds += o["count"]
+            nout += 1
+            slow = sum(1 for b in o["bufs"] if b)
+            bump(f"rounds_with_{min(slow, 3)}{'+' if slow >= 3 else ''}_mutators_in_slow_path", o["count"])
+            # real overlap: a buffer holds a value ANOTHER thread stored in this round (its scan ran after that store), or a
+            # mutator skipped the barrier (saw `logged`) although it was released together with the others
+            stored = [{v for _, v in w} for w in rc.writes]
+            if any(x in stored[u] and x not in rc.snap for t, b in enumerate(o["bufs"]) for x in b for u in range(rc.nt) if u != t and isinstance(x, int)) \
+                    or any(not b and rc.writes[t] for t, b in enumerate(o["bufs"])):
+                overlapped += o["count"]
+            orc = race_oracle(rc, o)
+            if lv != "ok":
+                nrej += 1
+                if not orc:
+                    orc = [("race:satb:lean-verdict", f"outcome rejected by the executable Lean predicate ({lv}) but accepted by the Python oracle")]
+            for key, what in orc:
+                if key in seen:
+                    continue
+                seen.add(key)
+                violations.append(Violation(key, f"{what} [race: {where}; round {o['round']} (and {o['count'] - 1} more rounds): {o['text']}; Lean verdict: {lv}]",
+                                            c, [o["text"]], [lv], True))
+    stats.update({"races": len(rcs), "race_rounds": nrounds, "race_distinct_outcomes": nout, "race_rejected_by_lean": nrej,
+                  "race_rounds_with_observed_overlap": overlapped, "race_distribution": dist,
+                  "race_samples": [{"case": rc.line(), "first_outcomes": [o["text"] for o in (po or [])[:3]], "lean_verdicts": v[:3]}
+                                   for rc, po, v in list(zip(rcs, parsed, verdicts))[:3]]})
+
+
+class SeqSpec(unit.UnitSpec):
+    """exact sequential differential of the barrier (one mutator at a time) against Model/SATBRace.lean"""
+    pid = "C12"
+    component = "satb"
+    relation = ("Mmtk.SATBRace.runToIdle (one mutator run alone to the end of its store) ≙ memory_manager::object_reference_write_pre + "
+                "store / Barrier::object_probable_write on a ConcurrentImmix mutator; buffers via verif::conc::satb::take_satb_buffer")
+    release_in_thorough = True
+
+    def gen(self, rng, tier, debug):
+        cases = []
+        n = 400 if tier == "thorough" else 90
+        for i in range(n):
+            k = rng.choice([1, 1, 2, 3, 4, 8, 15, 16])
+            unlog = 0 if rng.random() < 0.15 else 1
+            vals = [0 if rng.random() < 0.2 else rng.randrange(1, NVALS + 1) for _ in range(k)]
+            if rng.random() < 0.2 and k > 1:
+                vals[-1] = vals[0]
+            ops = [f"satb reset {k} {unlog} " + " ".join(map(str, vals))]
+            for _ in range(rng.randrange(1, 25)):
+                u = rng.random()
+                t = rng.randrange(MAXT) if rng.random() < 0.8 else rng.choice([0, MAXT - 1])
+                if u < 0.6:
+                    ops.append(f"satb write {t} {rng.randrange(k)} {rng.choice([0, rng.randrange(1, NVALS + 1), NVALS, vals[0]])}")
+                elif u < 0.7:
+                    ops.append(f"satb probable {t}")
+                elif u < 0.85:
+                    ops.append(f"satb take {t}")
+                elif u < 0.93:
+                    ops.append("satb state")
+                else:   # out-of-range arguments: both sides answer bad-op and keep their state
+                    ops.append(rng.choice([f"satb write {MAXT} 0 1", f"satb write 0 {k} 1", f"satb write 0 0 {NVALS + 1}", f"satb probable {MAXT}",
+                                           f"satb take {MAXT}", "satb write 1 2", "satb bogus", f"satb reset {k} 2 " + " ".join(["1"] * k),
+                                           f"satb reset {k} 1 " + " ".join(["1"] * (k + 1)), "satb reset 0 1", f"satb reset {MAXK + 1} 1 " + " ".join(["1"] * (MAXK + 1))]))
+            ops += [f"satb take {t}" for t in range(MAXT)] + ["satb state"]
+            cases.append(Case(ops, tag="satb-seq"))
+        return cases
+
+    def corpus(self, debug):
+        return [Case(["satb state", "satb write 0 0 1", "satb take 0", "satb", "satb reset 1 1 5", "satb write 0 0 0", "satb take 0", "satb state",
+                      "satb reset 2 1 1 2 3", "satb state", "satb write 7 1 96", "satb write 6 0 1", "satb take 7", "satb take 6", "satb take 7"], tag="satb-malformed"),
+                Case(["satb reset 16 1 " + " ".join(str(i) for i in range(1, 17)), "satb write 0 15 40", "satb write 1 0 41", "satb probable 2",
+                      "satb take 0", "satb take 1", "satb take 2", "satb state"], tag="satb-seq")]
+
+    def oracle(self, case, out):
+        """the SATB rule on a sequential history that starts unlogged: after the first store the object is logged and every
+        non-null snapshot referent has been handed out by some `take`; nothing else than field values is handed out"""
+        bad, snap, unlog, written, taken, pending, nwrites = [], None, None, set(), [], {}, 0
+        for op, res in zip(case.ops, out):
+            t = op.split()
+            if len(t) < 2 or res in ("bad-op", "unsupported") or res.startswith("panic"):
+                continue
+            if t[1] == "reset":
+                if snap is not None:
+                    bad += self._end(snap, unlog, written, taken, nwrites)
+                snap, unlog, written, taken, pending, nwrites = [int(x) for x in t[4:]], int(t[3]), set(), [], {}, 0
+            elif snap is None:
+                continue
+            elif t[1] in ("write", "probable"):
+                kv = dict(x.split("=", 1) for x in res.split())
+                if t[1] == "write":
+                    nwrites += 1
+                    written.add(int(t[4]))
+                    if kv.get("u") != "0":
+                        bad.append(("satb:seq:not-logged", f"`{op}` -> `{res}`: the object is still unlogged after a store through the barrier"))
+                pending[int(t[2])] = int(kv.get("n", -1))
+            elif t[1] == "take":
+                b = _parse_csv(res.split("=", 1)[1]) if res.startswith("b=") else None
+                if b is None or (int(t[2]) in pending and pending[int(t[2])] != len(b)):
+                    bad.append(("satb:seq:buffer-count", f"`{op}` -> `{res}` but the previous op reported n={pending.get(int(t[2]))}"))
+                pending.pop(int(t[2]), None)
+                taken += b or []
+        if snap is not None and case.ops[-1] == "satb state":
+            bad += self._end(snap, unlog, written, taken, nwrites)
+        return bad
+
+    @staticmethod
+    def _end(snap, unlog, written, taken, nwrites):
+        bad = []
+        if unlog == 1 and nwrites:
+            lost = [x for x in snap if x and x not in taken]
+            if lost:
+                bad.append(("satb:seq:snapshot-lost", f"snapshot referents {lost} were never recorded although the object was written through the barrier"))
+        sp = [v for v in taken if not isinstance(v, int) or v == 0 or (v not in snap and v not in written)]
+        if sp:
+            bad.append(("satb:seq:spurious-record", f"recorded {sp[:3]}: never a field value"))
+        return bad
+
+    def nontrivial(self, case, out):
+        ts = {op.split()[2] for op, res in zip(case.ops, out) if op.startswith("satb write") and " n=" in res and not res.endswith("n=0")}
+        return len(ts) >= 1 and case.ops[0].split()[3:4] == ["1"]
+
+    def summarize(self, cases, outs):
+        d = {}
+        for c, o in zip(cases, outs):
+            for op, res in zip(c.ops, o):
+                t = op.split()
+                key = "seq_op:" + (t[1] if len(t) > 1 else "-") + (":bad-op" if res == "bad-op" else "")
+                d[key] = d.get(key, 0) + 1
+                if len(t) > 1 and t[1] == "write" and " n=" in res:
+                    k2 = "seq_write:slow_path" if not res.endswith(" n=0") else "seq_write:fast_path_or_all_null"
+                    d[k2] = d.get(k2, 0) + 1
+        return {"satb_sequential": d}
+
+
+def replay_lines(lines):
+    pre = [l for l in lines if l.startswith("cfg ")]
+    ops = [l for l in lines if not l.startswith("cfg ")]
+    if not any(l.startswith("satb race") for l in ops):
+        return unit.replay(SeqSpec(), _tmp_replay(lines))
+    exe, err, _ = E.cargo_build("hx_unit", fs="fs_main")
+    E.run(["lake", "build", "mmtk_model"], cwd=E.LEAN_DIR)
+    rc = RaceCase.parse(ops[0])
+    for i in range(20):           # a race is a schedule sample: repeat it (each op already runs thousands of rounds)
+        out = E.run_cases(exe, [Case(ops[:1], pre)], env={"VERIF_PLAN": "ConcurrentImmix"})[0]
+        po = parse_outcomes(out[0] if out else "")
+        if po is None:
+            print("race did not finish:", out)
+            print("REPLAY: violation reproduced")
+            return 1
+        v = E.run_cases(E.model_exe(), [Case([judge_line(rc, o) for o in po], pre)])[0]
+        hits = [(o["text"], o["round"], race_oracle(rc, o), lv) for o, lv in zip(po, v) if lv != "ok" or race_oracle(rc, o)]
+        if hits:
+            txt, rnd, orc, lv = hits[0]
+            print(f"race: {ops[0]}\n  round {rnd}: {txt}\n  oracle: {orc}\n  Lean verdict: {lv}")
+            print("REPLAY: violation reproduced")
+            return 1
+    print("REPLAY: no longer reproduces (20 runs of the race)")
+    return 0
+
+
+def _tmp_replay(lines):
+    os.makedirs(os.path.join(E.OUT, "replay"), exist_ok=True)
+    path = os.path.join(E.OUT, "replay", "C12-seq-tmp.json")
+    json.dump({"case": lines}, open(path, "w"))
+    return path
+
+
+RULE = ("one evaluation = one `ismo` probe of an object owed by the SATB rule (InitialMark snapshot or allocated during marking) after FinalMark, or one snapshot compared "
+        "with the shadow heap, or one sequential barrier history (exact differential), or one round of a real-thread barrier race; non-trivial = a complete "
+        "InitialMark -> FinalMark cycle with >= 10 barriered writes while marking was in progress (distinct by workers, yield seed, writes, allocations), a sequential history "
+        "in which a slow path ran, or a distinct race outcome judged by Lean and by the oracle")
+ASSUMPTIONS = ["the pause kinds are read from the event log (GcFinishedEnd b=1 <=> InitialMark); the pause after InitialMark is FinalMark (ConcurrentImmix::schedule_collection)",
+               "ConcurrentImmix does not move objects in InitialMark / FinalMark pauses (addresses from alloc results / snapshots stay valid for `ismo`)",
+               "hx_gc `write` = object_reference_write_pre + plain store on this plan (F-D)",
+               "whole-collector runs: the driver thread is the only mutator; concurrency = driver vs. concurrent marking workers (yield points armed on half of the programs)",
+               "barrier races (hx_unit `satb race`): the plan is put into the marking-active state by ConcurrentImmix::set_concurrent_marking_state(true) without a GC; "
+               "a mutator's store = memory_manager::object_reference_write_pre, then SimpleSlot::store; the SATB buffers are read through the add-only accessor "
+               "verif::conc::satb::take_satb_buffer (never full: <= 48 entries per round), so `flush_satb`/ProcessModBufSATB are not on the raced path; the schedules of the "
+               "real threads are sampled (rendezvous + random stagger + seeded yield points), the theorem covers all of them",
+               "a round's outcome corresponds to a quiescent state of Model/SATBRace.lean whose `started` = the round's stores (every thread completes its stores before the end rendezvous)"]
+
+
 def main(argv=None):
-    return W.run_check("C12", argv, ["MmtkModel.Props.C12"], THEOREMS, KEYS, make_suite, oracle, CORPUS, stats,
-                       rule="one evaluation = one `ismo` probe of an object owed by the SATB rule (InitialMark snapshot or allocated during marking) after FinalMark, or one snapshot compared with the shadow heap; non-trivial = a complete InitialMark -> FinalMark cycle with >= 10 barriered writes while marking was in progress; distinct by (workers, yield seed, writes, allocations)",
-                       assumptions=["the pause kinds are read from the event log (GcFinishedEnd b=1 <=> InitialMark); the pause after InitialMark is FinalMark (ConcurrentImmix::schedule_collection)",
-                                    "ConcurrentImmix does not move objects in InitialMark / FinalMark pauses (addresses from alloc results / snapshots stay valid for `ismo`)",
-                                    "hx_gc `write` = object_reference_write_pre + plain store on this plan (F-D)",
-                                    "the driver thread is the only mutator; concurrency = driver vs. concurrent marking workers (yield points armed on half of the programs)"],
-                       directives=DIRECTIVES, malformed=MALFORMED, jobs=4)
+    ap = argparse.ArgumentParser()
+    ap.add_argument("--tier", default=os.environ.get("VERIF_TIER", "quick"))
+    ap.add_argument("--seed", type=int, default=int(os.environ.get("VERIF_SEED", "20260921")))
+    ap.add_argument("--replay")
+    a = ap.parse_args(argv)
+    t0 = time.time()
+    if a.replay:
+        d = json.load(open(a.replay))
+        if isinstance(d.get("case"), list):
+            return replay_lines(d["case"])
+    r = W.run_parts("C12", a.tier, a.seed, MODULES, THEOREMS, KEYS, make_suite, oracle, CORPUS, stats, RULE, directives=DIRECTIVES,
+                    malformed=MALFORMED, jobs=4, replay=a.replay)
+    if isinstance(r, int):
+        return r
+    lean, corr, violations = r
+    if not any(v.key == "harness-build-failed" for v in violations):
+        st = {}
+        spec = SeqSpec()
+        unit.run_profile(spec, a.tier, a.seed, True, lean["ok"], violations, st)
+        if a.tier == "thorough":
+            unit.run_profile(spec, a.tier, a.seed, False, lean["ok"], violations, st)
+        run_satb_races(a.tier, a.seed, violations, st)
+        dist = corr.setdefault("distribution", {})
+        dist.update(st.get("distribution", {}))
+        dist.update(st.get("race_distribution", {}))
+        seq_distinct = len(st.pop("_distinct", set()))
+        corr["evaluations"] = corr.get("evaluations", 0) + st.get("evaluations", 0) + st.get("race_rounds", 0)
+        corr["distinct_nontrivial"] = corr.get("distinct_nontrivial", 0) + seq_distinct + st.get("race_distinct_outcomes", 0)
+        corr["traces_validated_against_impl"] = corr.get("traces_validated_against_impl", 0) + st.get("evaluations", 0) + st.get("race_rounds", 0)
+        corr.update({"satb_sequential_cases": st.get("evaluations", 0), "satb_sequential_op_lines": st.get("op_lines", 0),
+                     "satb_sequential_disagreements": st.get("disagreements", 0), "satb_real_thread_races": st.get("races", 0),
+                     "satb_race_rounds": st.get("race_rounds", 0), "satb_race_distinct_outcomes_judged_by_lean_and_oracle": st.get("race_distinct_outcomes", 0),
+                     "satb_race_outcomes_rejected_by_lean_predicate": st.get("race_rejected_by_lean", 0),
+                     "satb_race_rounds_with_observed_overlap": st.get("race_rounds_with_observed_overlap", 0), "satb_race_s": st.get("race_s"),
+                     "satb_samples": st.get("samples", [])[:2] + st.get("race_samples", [])[:2],
+                     "verdict_keys": list(corr.get("verdict_keys", [])) + list(RACE_KEYS)})
+    return E.finish("C12", a.tier, a.seed, t0, lean, corr, violations, level=W.LEVEL, assumptions=ASSUMPTIONS,
+                    trusted=W.TRUSTED + ["hx_unit component `satb` (harness/src/comp/conc/satb.rs) + add-only accessors verif::conc::satb report real memory faithfully"])
